@@ -4,6 +4,8 @@ J1  a pair is joined iff the keys are equal AND the two rows come from different
 J2  the join built-in zeroes every wire of a non-matching row and sorts on the flag bit before concatenating
 J3  the for-join body obeys the panic-record and environment protocols (C02-P2, C14-E4)
 J4  the number of emitted rows and the declared result size derive from the same two array sizes
+J7  push_eq_circuit (the key comparison of the join) compares every bit position pairwise and conjoins all comparisons; no
+    element-dropping adaptor (chunks_exact, skip, take ...) on the way
 J6  layout of the rows given to the merger: tag inserted / removed at the key width, merger compares key width + 1 bits ascending,
     tags 0 / 1, padding rows first, first array ascending, second array reversed, rows truncated to their own element width
 J5  shape of the bitonic network: power-of-two stride used for partner index and split, compare-exchange of [i] / [i+stride],
@@ -518,5 +520,74 @@ def rule_j6(ctx):
     return res
 
 
+DROPPERS = ("chunks_exact", "chunks_exact_mut", "array_chunks", "step_by", "skip", "take", "skip_while", "take_while", "filter", "windows", "nth", "rchunks_exact")
+
+
+def rule_j7(ctx):
+    """Key equality compares every bit position: eq(x[i], y[i]) for all i, all conjoined."""
+    res = RuleResult("J7", "push_eq_circuit compares every bit position of the two keys and conjoins all comparisons")
+    fid = "circuit::CircuitBuilder::push_eq_circuit"
+    body = ctx.body(fid)
+    ids = [fid] + sorted(ctx.cg.closures_of.get(fid, ()))
+    drops = []
+    for i_ in ids:
+        bb = ctx.body(i_)
+        for b, t in bb.calls():
+            if mir.last_seg(mir.callee(t) or "") in DROPPERS and not bb.blocks[b]["cleanup"]:
+                drops.append((i_, t))
+    for (i_, t) in drops:
+        res.bad(Finding("J7", fid, "bit positions can be left out of the key comparison",
+                        "%s can drop elements (a leftover chunk, a skipped prefix ...): keys that differ only in the dropped positions compare as equal and rows with different keys are joined" % mir.last_seg(mir.callee(t)),
+                        t["sp"]))
+    eqs = [(b, t) for b, t in body.calls() if mir.last_seg(mir.callee(t) or "") == "push_eq"]
+    if len(eqs) != 1:
+        if not drops:
+            raise AnchorMissing("J7: push_eq_circuit no longer compares the positions with one push_eq call in a loop")
+        return res
+    eb, et = eqs[0]
+    loops = [lp for lp in body.loops() if eb in lp["body"]]
+    if not loops:
+        raise AnchorMissing("J7: push_eq is not called in a loop")
+    lp = min(loops, key=lambda l: len(l["body"]))
+    # operands: items of x and y (zip), not twice the same side
+    sides = []
+    for a in et["args"][1:3]:
+        ss = set()
+        for (r, p) in body.deep_sources(a, 3):
+            if r in (("arg", 2), ("arg", 3)):
+                ss.add(r[1])
+        sides.append(ss)
+    if sides[0] and sides[1] and sides[0] != sides[1] and len(sides[0]) == 1 and len(sides[1]) == 1:
+        res.ok({"clause": "positions", "verdict": "push_eq(x[i], y[i]) over the zipped keys"})
+    else:
+        res.bad(Finding("J7", fid, "key positions are not compared pairwise", "push_eq gets operands from %s" % sides, et["sp"]))
+    # the linear fold: acc = and(acc, eq) in the same iteration, acc returned
+    folds = []
+    for b in lp["body"]:
+        t = body.term(b)
+        if t and t["k"] == "call" and mir.last_seg(mir.callee(t) or "") == "push_and":
+            srcs = [body.trace_operand(a) for a in t["args"][1:3]]
+            has_eq = [any(r[0] == "call" and r[1] == eb for (r, p) in sset) for sset in srcs]
+            has_self = [any(r[0] == "call" and r[1] == b for (r, p) in sset) for sset in srcs]
+            if (has_eq[0] and has_self[1]) or (has_eq[1] and has_self[0]):
+                folds.append(b)
+    if folds:
+        latches = [b for b in lp["body"] if lp["header"] in body.succs(b)]
+        skip = body.path(lp["header"], latches, blocked=set(folds), succ=lambda x: [y for y in body.succs(x) if y in lp["body"] and not body.blocks[y]["cleanup"]])
+        ret_ok = False
+        for blk in body.blocks:
+            for st in blk["stmts"]:
+                if st["k"] == "assign" and st["place"]["l"] == 0 and not st["place"]["p"] and st["rv"]["k"] == "use":
+                    if any(r[0] == "call" and r[1] in folds for (r, p) in body.trace_operand(st["rv"]["op"])):
+                        ret_ok = True
+        if not skip and ret_ok:
+            res.ok({"clause": "conjunction", "verdict": "every position's comparison is and-ed into the returned accumulator"})
+        else:
+            res.bad(Finding("J7", fid, "a position's comparison can be left out of the conjunction", "every iteration must and its comparison into the accumulator that is returned", et["sp"]))
+    elif not drops:
+        raise AnchorMissing("J7: the comparisons are conjoined in a way this rule does not know (no element-dropping adaptor was found)")
+    return res
+
+
 def run(ctx):
-    return ctx.run_rules([rule_j1, rule_j2, rule_j3, rule_j4, rule_j5, rule_j6])
+    return ctx.run_rules([rule_j1, rule_j2, rule_j3, rule_j4, rule_j5, rule_j6, rule_j7])
